@@ -131,7 +131,8 @@ def judge(case):
                 fails.append(Failure("C07.property-path", "prop-extra-structure", repr(ev2)[:200]))
         elif path == "catcodec":
             items = case["items"]
-            enc = vCategory(items).to_ical()
+            # a category is its characters, whatever string type carries them (the library's typed strings, a str subclass)
+            enc = vCategory([_ITYPES[(case.get("itypes") or [0])[i_ % len(case.get("itypes") or [0])] % len(_ITYPES)](x) for i_, x in enumerate(items)]).to_ical()
             text = enc.decode("utf-8")
             if "\n" in text:
                 fails.append(Failure("C07.encoded-form", "encoded-has-raw-linebreak", repr(text)[:200]))
@@ -233,7 +234,7 @@ def _special_cases():
             out.append({"path": "codec", "s": s})
             out.append({"path": "prop", "name": "summary", "s": s})
             out.append({"path": "prop", "name": ["CONTACT", "REQUEST-STATUS", "RELATED-TO", "TZNAME", "RESOURCES", "COLOR"][len(s) % 6], "s": s})
-            out.append({"path": "catcodec", "items": [s, "x"]})
+            out.append({"path": "catcodec", "items": [s, "x"], "itypes": [len(out) % 6, 0]})
             out.append({"path": "cat", "items": ["x", s]})
     return out
 
@@ -275,9 +276,23 @@ def _hyp_cases():
     return st.one_of(
         st.builds(lambda s: {"path": "codec", "s": s}, long_text),
         st.builds(lambda s, n: {"path": "prop", "name": n, "s": s}, long_text, names),
-        st.builds(lambda it: {"path": "catcodec", "items": it}, st.lists(long_text, min_size=1, max_size=4)),
+        st.builds(lambda it, ty: {"path": "catcodec", "items": it, "itypes": ty}, st.lists(long_text, min_size=1, max_size=4), st.lists(st.integers(0, 5), min_size=1, max_size=4)),
         st.builds(lambda it: {"path": "cat", "items": it}, st.lists(long_text, min_size=1, max_size=4)),
     )
+
+
+class _StrWithToIcal(str):
+    def to_ical(self):
+        return self.encode("utf-8")
+
+
+def _typed(name):
+    import icalendar
+    import icalendar.prop
+    return lambda x: getattr(icalendar.prop, name)(x)
+
+
+_ITYPES = [str, _typed("vText"), _typed("vUri"), _typed("vCalAddress"), _typed("vInline"), _StrWithToIcal]
 
 
 def _cat_case(i, path, l1, l2):
